@@ -159,7 +159,7 @@ def generate(rng: Prng, tier: str) -> dict:
     w = rng.stream("workload")
     sp = rng.stream("stream.chunk")
     fp = rng.stream("fault.plan")
-    big = w.chance(0.01)
+    big = w.chance(0.015)
     if big:
         maxdepth = w.choice([0, 1, 2])
         maxpts = w.choice([1200, 2500, 5000]) if tier == "thorough" else 1200
@@ -196,6 +196,13 @@ def generate(rng: Prng, tier: str) -> dict:
             v["keep_mtime"] = fp.chance(0.7)
             v["source"] = "path"
         variants.append(v)
+    if big:
+        # a document of tens of kilobytes always gets two densely annotated variants: wherever a reader cuts its input
+        # into blocks, some comment or colour marker then straddles the cut
+        bg = rng.stream("big.decorated")
+        for src in ("path", "string"):
+            variants.append({"kind": "decorated", "source": src, "stream": {}, "dseed": bg.below(1 << 30), "p": 0.7,
+                             "pre": []})
     assert kinds
     return {"prop": PROP, "doc": doc, "seps": seps, "variants": variants,
             "config": "faulting" if any(v["kind"] in ("truncate", "corrupt", "eio") for v in variants) else "fault_free"}
@@ -354,6 +361,8 @@ def execute(program: dict) -> dict:
             depth = depth_of(doc["body"])
             bucket = f"d{min(depth, 9)}n{min(npts, 9) if npts < 10 else (npts // 10) * 10 if npts < 100 else 100}"
             world.log("doc", len(text), npts, depth)
+            if len(text) > 8000:
+                trunc_budget = 1000000  # big documents: fewer truncation offsets, the annotated variants matter there
             world.retained = []
             for vi, v in enumerate(program["variants"]):
                 if vi:
